@@ -22,8 +22,9 @@ MANIFEST = {
     "level_text": "Machine-checked theorems about the Gallina model Model/UnitSyntax.v: every well-formed sentence of the "
                   "property's grammar (all three multiplication spellings, juxtaposition, parenthesised groups, plus the library's "
                   "own '1/' numerator and '^(p/q)' powers) is accepted with exactly the exponents of the conventional reading "
-                  "(induction over the grammar AST through lexer, grouping, builder and evaluator), and strings with an illegal "
-                  "character, a digit that does not belong to a power, or unbalanced / nested brackets are rejected. The model is "
+                  "(induction over the grammar AST through lexer, grouping, builder and evaluator), and every string with an illegal "
+                  "character, a digit that does not belong to a power, unbalanced brackets, or a leading / trailing / doubled "
+                  "operator (at any bracket depth) is rejected. The model is "
                   "tied to the code by a generator for its literals and by running model and implementation on every string of a "
                   "small alphabet up to a length bound and on thousands of random sentences and their corruptions.",
     "level_note": "Trusted: Coq kernel; the hand-written lexer model is written for the regular expressions whose text the "
@@ -164,7 +165,7 @@ def correspondence(ctx):
     res = CorrResult()
     rng = ctx.rng
     U.clear_global_state()
-    max_len = ctx.n(5, 7)
+    max_len = ctx.n(5, int(os.environ.get("VERIF_C12_MAXLEN", "7")))
     plan = exhaustive_plan(max_len)
     with ProcessPoolExecutor(max_workers=12) as ex:
         shards_out = list(ex.map(_shard, plan, chunksize=1))
@@ -294,15 +295,22 @@ def search(ctx, suspects, budget):
             report(s)
     # exhaustive small scope: the oracle is total (sentence <-> must be accepted with the conventional meaning)
     max_len = 5 if (budget >= 20 or not ctx.quick) else 4
+    done_len = -1
     for L in range(0, max_len + 1):
-        for w in itertools.product(U.EXH_ALPHABET, repeat=L):
+        stop = False
+        for i, w in enumerate(itertools.product(U.EXH_ALPHABET, repeat=L)):
+            if i % 4096 == 0 and time.time() - t0 > budget * 0.5:
+                stop = True
+                break
             s = "".join(w)
             if U.judge(s):
                 report(s)
                 if len(out) >= 4:
+                    stop = True
                     break
-        if len(out) >= 4 or time.time() - t0 > budget:
+        if stop:
             break
+        done_len = L
     n = 0
     rng = ctx.rng
     while len(out) < 5 and time.time() - t0 < budget and n < ctx.n(4000, 200000):
@@ -312,7 +320,7 @@ def search(ctx, suspects, budget):
             if U.judge(cand):
                 report(cand)
     ctx.notes.append("oracle: all strings of length <= {} over the 11-character alphabet, {} random sentences with corruptions".format(
-        max_len, n))
+        done_len, n))
     U.clear_global_state()
     return out[:5]
 
